@@ -1278,6 +1278,79 @@ def same_arg(d, e):
     return tuple(d) == tuple(e)
 
 
+def documented(v, kind, outer=None, as_arg=False):
+    """Is the Python value a message / bundle as send_msg / send_bundle document them?  True / False, or None when this
+    transcription does not know (MIDI 4-tuples, floats beyond binary32, ...).  Written from the docstrings of
+    OscInterface.send_msg / NetAddr.send_bundle, independent of the Coq model:
+      message  = [address str, values...]; a value is None, bool, int32, float, str, non-empty bytes, '[' / ']' (balanced),
+                 [] or a list that is itself a message or a bundle [time, [element], ...] (at least one element, a list);
+      bundle   = [time (number or None), elements...]; an element is a message or a bundle not earlier than this one."""
+    seqs = (list,) if as_arg else (list, tuple)
+    if kind == 'msg':
+        if not isinstance(v, seqs) or not v or not isinstance(v[0], str) or not v[0] or '\x00' in v[0]:
+            return False
+        depth = 0
+        res = True
+        for a in v[1:]:
+            if a is None or isinstance(a, bool) or isinstance(a, float):
+                if isinstance(a, float) and a == a and abs(a) > 3.4028235677973366e38 and abs(a) != float('inf'):
+                    res = None
+                continue
+            if isinstance(a, int):
+                if not -2 ** 31 <= a < 2 ** 31:
+                    return False
+            elif isinstance(a, str):
+                if '\x00' in a:
+                    return False
+                try:
+                    a.encode('utf-8')
+                except UnicodeEncodeError:
+                    return False
+                depth += (a == '[') - (a == ']')
+                if depth < 0:
+                    return False
+            elif isinstance(a, (bytes, bytearray, memoryview)):
+                if len(bytes(a)) == 0:
+                    return False
+            elif isinstance(a, list):
+                if not a:
+                    continue
+                if isinstance(a[0], str):
+                    r = documented(a, 'msg', as_arg=True)
+                elif (a[0] is None or isinstance(a[0], (int, float))) and len(a) > 1 and isinstance(a[1], list):
+                    r = documented(a, 'bundle')
+                else:
+                    return False            # neither a message nor a bundle: must be refused
+                if r is False:
+                    return False
+                if r is None:
+                    res = None
+            elif isinstance(a, tuple) and len(a) == 4:
+                res = None                  # python-osc's MIDI message
+            else:
+                return False
+        return False if depth != 0 else res
+    if not isinstance(v, (list, tuple)) or not v or not (v[0] is None or isinstance(v[0], (int, float))):
+        return False
+    res = True
+    for e in v[1:]:
+        if not isinstance(e, (list, tuple)) or not e:
+            return False                    # an element is a list: a str or a number there is not a message
+        if isinstance(e[0], str):
+            r = documented(e, 'msg')
+        elif e[0] is None or isinstance(e[0], (int, float)):
+            if v[0] is not None and (e[0] is None or v[0] > e[0]):
+                return False
+            r = documented(e, 'bundle')
+        else:
+            return False
+        if r is False:
+            return False
+        if r is None:
+            res = None
+    return res
+
+
 def flat_expected(exp, tag=None):
     """the (time, message) pairs OscPacket must return for an expected packet: depth first, then stable sort by time"""
     if exp[0] == 'msg':
@@ -1340,6 +1413,8 @@ def probe_trees(ctx):
            ('bundle', [None, [None, [S('/y')]]]), ('msg', [S('/é'), I(1)]), ('msg', [S('/x'), [None, [None, [S('/y')]]]]),
            ('msg', [S('/x'), MV('i', 3)]), ('msg', [S('/x'), MV('d', 2), I(1)]), ('msg', [S('/x'), MV('H', 4, shape=[2, 2])]),
            ('msg', [S('/x'), MV('i', 6, step=2)]), ('bundle', [Fl(0.2), [S('/a'), MV('q', 2)], [S('/b'), [S('/c'), MV('f', 3)]]]),
+           ('msg', [S('/x'), [I(440)]]), ('msg', [S('/x'), [None]]), ('msg', [S('/x'), [Fl(0.5), S('/n_free')]]), ('msg', [S('/x'), [I(1), S('ab')]]),
+           ('msg', [S('/x'), [Y(b'ab')]]), ('msg', [S('/x'), [[S('/y')]]]), ('bundle', [Fl(0.2), [S('/x'), [Fl(0.5)]]]),
            ('msg', [S('/x'), Tup(S('/y'), I(1))]), ('msg', [S('/d_recv'), Y(b'ab'), Tup(S('/n_set'), I(1000), S('freq'), Fl(440.0))]),
            ('msg', [S('/x'), Tup(I(1), I(2), I(3), I(4))]), ('bundle', [Fl(0.2), Tup(S('/a'), I(1)), [S('/b'), Tup(S('/c'), Y(b'abcde'))]]),
            ('msg', [S('/x'), S('a\x00b')]), ('msg', [S('/x'), S('a\x00bcdefg'), I(5)]), ('msg', [S('/a\x00b'), I(1)]),
@@ -1351,7 +1426,7 @@ def probe_trees(ctx):
         else:
             ts.append(('bundle', g_bundle(rng, rng.choice([1, 2, 3]))))
     for kind_, t_ in ts:          # everything so far is representable by construction, except the NUL probes
-        if not has_nul_str(pyval(t_)) and '"t":' not in json.dumps(t_):
+        if documented(pyval(t_), kind_) is True:
             VALID_PROBES.add(id(t_))
     for _ in range(ctx.n(60, 600)):
         base = g_msg(rng, rng.choice([0, 1]), addrs=ADDRS)
@@ -1433,6 +1508,10 @@ def search(ctx, failures):
             continue
         v = pyval(k['v'])
         dgram = bytes.fromhex(o['build'][1])
+        if documented(v, k['kind']) is False and not has_nul_str(v):
+            report('C06:undocumented_accepted', 'accepted for sending although it is not a message or bundle of representable values (it must be refused): %s -> %r'
+                   % (show(k['v']), dgram[:100]), {'probe': 'roundtrip', 'case': k, 'dgram': dgram.hex(), 'expected': 'refused',
+                                                   'command': './check C06 --replay <this file>'}, 'unrepresentable_refused')
         call = ('_calc_msg_dgram_size(%s)' % show(k['v'])) if k['kind'] == 'msg' else ('_calc_bndl_dgram_size(%s)' % show(k['v'][1:]))
         if 0 <= o['pred'] < len(dgram):
             report('C06:size_prediction_below_real',
